@@ -43,8 +43,9 @@ class Parenthesis(Token):
             if not stack or self.opens[self.name] != stack[-1].name:
                 raise ParenthesesError()
             token = stack.pop()
-            if token.attr.get('array', False) != self.attr.get('array', False):
-                raise ParenthesesError()  # `}` or `;` vs `(` (or `)` vs `{`).
+            if any(token.attr.get(k, False) != self.attr.get(k, False)
+                   for k in ('array', 'root')):
+                raise ParenthesesError()  # E.g. `}` vs `(`, or `)` vs `{`.
             if not token.get_check_n(token):
                 raise ParenthesesError()
             n = self.attr['n_args'] = token.n_args
